@@ -123,6 +123,53 @@ def level_b(ctx, docs, impls, finding_docs=()):
     ctx.cov['correspondence']['level_b_grammar'] = stat
 
 
+POISON_SHEETS = ['a {\n    background: url(', 'x{y:(', '@media (a', 'a{b:c)}', 'a{b:"c', '/* open', 'a{b{c{', '}}}', 'a:(b:(c']
+
+
+def call_sequences(ctx, docs):
+    """The result for (sheet, position) does not depend on which calls came before: positions are queried in a
+    shuffled order, alternating between two sheets, with queries on half-typed sheets (unbalanced parentheses,
+    unterminated strings/comments, stray braces) interleaved; every answer is checked against the record."""
+    rng = ctx.rng
+    n = bad_n = 0
+    for k in range(0, len(docs) - 1, 2):
+        pair = [docs[k], docs[k + 1]]
+        queries = []
+        for text, items in pair:
+            ps = list(range(0, len(text) + 1))
+            rng.shuffle(ps)
+            queries += [(text, items, p) for p in ps[:40]]
+        rng.shuffle(queries)
+        hist = []
+        for j, (text, items, pos) in enumerate(queries):
+            if j % 4 == 0:
+                poison = rng.choice(POISON_SHEETS)
+                pp = rng.randint(0, len(poison))
+                for f in ('match', 'outward', 'inward'):
+                    U.IMPL[f](poison, pp)
+                hist.append([poison, pp])
+            got = {f: U.IMPL[f](text, pos) for f in ('match', 'outward', 'inward')}
+            hist.append([text, pos])
+            n += 1
+            ctx.count_eval()
+            ctx.cover('call-sequence-queries')
+            bad = U.c10_oracle(text, items, pos, got)
+            if bad:
+                bad_n += 1
+                f, why = bad[0]
+                fresh = {g: U.IMPL[g](text, pos) for g in ('match', 'outward', 'inward')}
+                ctx.property_failure('c10:sequence:%s:%s@%d' % (f, text, pos),
+                                     'css %s on %s after other calls (shuffled positions, other sheets, half-typed sheets): %s' % (f, U.short(text), why),
+                                     {'component': 'css', 'check': 'c10-sequence', 'text': text, 'items': items, 'pos': pos, 'func': f,
+                                      'why': why, 'history': hist[-40:],
+                                      'note': 'history-dependent: asked again right away the answer is %r' % (fresh[f],)})
+                if bad_n >= 5:
+                    break
+        if bad_n >= 5:
+            break
+    ctx.cov['call_sequence_queries'] = n
+
+
 def run(ctx):
     ok = ctx.build(['props/C10.vo', 'props/C16Css.vo', 'run/CssRun.vo', 'run/SheetRun.vo'])
     if ok:
@@ -177,6 +224,7 @@ def run(ctx):
                              {'component': 'css', 'check': 'c10', 'text': text, 'items': items, 'pos': pos,
                               'func': f, 'why': why})
     ctx.cov['oracle'] = {'sheets': len(docs), 'failing_sheets': len({i for _, i, _, _, _ in failures})}
+    call_sequences(ctx, docs[n_corpus:n_corpus + (12 if quick else 120)])
     # known finding witnesses: the statement's last sentence for parenthesised expressions
     for c in corpus:
         key = c.get('finding_key')
@@ -221,6 +269,12 @@ def replay(ctx, obj):
     if text is None or rp.get('items') is None:
         print('replay names a broken obligation, no input: %s' % json.dumps(rp)[:500])
         return 1
+    if rp.get('check') == 'c10-sequence':
+        for t, q in rp.get('history', []):
+            got = {f: U.IMPL[f](t, q) for f in ('match', 'outward', 'inward')}
+        bad = U.c10_oracle(text, rp['items'], rp['pos'], got)
+        print('after the recorded call history, position %d of %r: %s' % (rp['pos'], text, bad[0][1] if bad else 'property holds'))
+        return 1 if bad else 0
     im = U.impl_doc(text, FUNCS)
     bad = oracle_doc(text, rp['items'], im)
     if bad:
